@@ -17,7 +17,7 @@ def sig_of(ev):
     op = ev.get("op", "?")
     if ev.get("streamerrors"):
         return "C03:stream-separator"
-    if ev.get("msgid") != 100 + ev.get("n", 0):
+    if ev.get("msgid") != 100 + ev.get("n", 0) + ev.get("skipped", 0):
         return "C03:message-id-sequence"
     if not ev.get("wf"):
         return "C03:%s:not-well-formed:%s" % (op, ev.get("arg"))
